@@ -66,6 +66,9 @@ type Forwarder struct {
 // You can change this behavior by passing a middleware which will ack them instead.
 func NewForwarder(subscriberIn message.Subscriber, publisherOut message.Publisher, logger watermill.LoggerAdapter, config Config) (*Forwarder, error) {
 	config.setDefaults()
+	if logger == nil {
+		logger = watermill.NopLogger{}
+	}
 
 	routerConfig := message.RouterConfig{CloseTimeout: config.CloseTimeout}
 	if err := routerConfig.Validate(); err != nil {
